@@ -106,49 +106,48 @@ def entryName (qual : String) : String :=
   | [_, n] => n
   | _ => qual
 
-def assembleSite (blocks : List BlockDef) (look : String → Option RawBlock) : Option Val := do
-  let mut T : SiteTable := []
-  let mut frame : Option Str := Option.none
-  for b in blocks do
-    match look b.marker, b.kind with
-    | some r, .custom q =>
-      let rows := rowsOf b 81 r
-      let e := entryName q
-      if e = "file_comment" then
-        frame ← refFrame rows
-      else if e = "site_id" then
-        T := regroup true e siteKey id T rows
-      else if e = "site_antenna" then
-        let rows' ← rows.mapM antennaRow
-        T := regroup false e siteKey id T rows'
-      else
-        T := regroup false e siteKey id T rows
-    | some _, _ => Option.none
-    | Option.none, _ => pure ()
-  -- `_add_ref_frame_to_solution_estimate`
+/-- one block of `SinexSiteParser` applied to (site table, reference frame of the FILE/COMMENT block) -/
+def siteStep (look : String → Option RawBlock) (st : SiteTable × Option Str) (b : BlockDef) :
+    Option (SiteTable × Option Str) :=
+  match look b.marker, b.kind with
+  | some r, .custom q =>
+    let rows := rowsOf b 81 r
+    let e := entryName q
+    if e = "file_comment" then (refFrame rows).map fun fr => (st.1, fr)
+    else if e = "site_id" then some (regroup true e siteKey id st.1 rows, st.2)
+    else if e = "site_antenna" then (rows.mapM antennaRow).map fun rows' => (regroup false e siteKey id st.1 rows', st.2)
+    else some (regroup false e siteKey id st.1 rows, st.2)
+  | some _, _ => Option.none
+  | Option.none, _ => some st
+
+/-- `_add_ref_frame_to_solution_estimate`: sites with a four-character key get the frame in every
+`solution_estimate` row -/
+def addRefFrame (frame : Option Str) (T : SiteTable) : SiteTable :=
   match frame with
-  | Option.none => pure (siteTableVal T)
+  | Option.none => T
   | some fr =>
-    let T' : SiteTable := T.map fun (site, entries) =>
+    T.map fun (site, entries) =>
       if site.length = 4 then
         (site, entries.map fun (e, rows) =>
           if e = "solution_estimate" then (e, rows.map fun r => dset r "ref_frame" (Cell.str fr)) else (e, rows))
       else (site, entries)
-    pure (siteTableVal T')
+
+def assembleSite (blocks : List BlockDef) (look : String → Option RawBlock) : Option Val :=
+  (blocks.foldlM (siteStep look) ([], Option.none)).map fun st => siteTableVal (addRefFrame st.2 st.1)
 
 /-! ### sinex_discontinuities, sinex_events -/
 
 def dropSiteCode (r : Row) : Row := r.filter (·.1 ≠ "site_code")
 
-def assembleDisc (blocks : List BlockDef) (look : String → Option RawBlock) : Option Val := do
-  let mut T : SiteTable := []
-  for b in blocks do
-    match look b.marker, b.kind with
-    | some r, .custom q =>
-      T := regroup false (entryName q) siteKey dropSiteCode T (rowsOf b 81 r)
-    | some _, _ => Option.none
-    | Option.none, _ => pure ()
-  pure (siteTableVal T)
+/-- one block of `DiscontinuitiesSnxParser` / `EventsSnxParser`: every row goes under its site, without `site_code` -/
+def discStep (look : String → Option RawBlock) (T : SiteTable) (b : BlockDef) : Option SiteTable :=
+  match look b.marker, b.kind with
+  | some r, .custom q => some (regroup false (entryName q) siteKey dropSiteCode T (rowsOf b 81 r))
+  | some _, _ => Option.none
+  | Option.none, _ => some T
+
+def assembleDisc (blocks : List BlockDef) (look : String → Option RawBlock) : Option Val :=
+  (blocks.foldlM (discStep look) []).map siteTableVal
 
 /-! ### sinex_tro -/
 
